@@ -31,11 +31,13 @@ type Case struct {
 	MapMode  int                  `json:"map_mode"`
 	MapSeed  uint64               `json:"map_seed"`
 	Clients  []harness.ClientSpec `json:"clients,omitempty"`
-	Schedule []simrt.Decision     `json:"schedule,omitempty"` // explicit decision list (replay / minimised)
-	Extra    map[string]any       `json:"extra,omitempty"`
-	Prov     *ProvCase            `json:"prov,omitempty"` // class P: one step provider driven directly
-	Prep     *PrepCase            `json:"prep,omitempty"` // preparation-only case (C10, C16)
-	Eng      *EngCase             `json:"eng,omitempty"`  // class E: engine API from files on disk (C20)
+	// SecondPrepare: "" | "before" | "during" (see harness.Spec.SecondPrepare).
+	SecondPrepare string           `json:"second_prepare,omitempty"`
+	Schedule      []simrt.Decision `json:"schedule,omitempty"` // explicit decision list (replay / minimised)
+	Extra         map[string]any   `json:"extra,omitempty"`
+	Prov          *ProvCase        `json:"prov,omitempty"` // class P: one step provider driven directly
+	Prep          *PrepCase        `json:"prep,omitempty"` // preparation-only case (C10, C16)
+	Eng           *EngCase         `json:"eng,omitempty"`  // class E: engine API from files on disk (C20)
 }
 
 // ShapeKey is the coarse signature of the workload (distinctness measure of the evidence).
@@ -63,14 +65,15 @@ type Violation struct {
 // Spec turns a case into a harness run.
 func (c *Case) Spec(journal bool) harness.Spec {
 	sp := harness.Spec{
-		Plan:     c.Plan,
-		Policy:   c.Policy,
-		MapMode:  c.MapMode,
-		MapSeed:  c.MapSeed,
-		Clients:  c.Clients,
-		Journal:  journal,
-		KeepLogs: os.Getenv("VERIF_LOGS") != "",
-		Watch:    WatchGiveUp,
+		Plan:          c.Plan,
+		Policy:        c.Policy,
+		MapMode:       c.MapMode,
+		MapSeed:       c.MapSeed,
+		Clients:       c.Clients,
+		SecondPrepare: c.SecondPrepare,
+		Journal:       journal,
+		KeepLogs:      os.Getenv("VERIF_LOGS") != "",
+		Watch:         WatchGiveUp,
 	}
 	if c.Program != nil {
 		sp.Text, sp.Files = c.Program.YAML(), c.Program.Files()
@@ -349,6 +352,33 @@ func ShapeOf(p *ir.Program) string {
 func probesOf(c *Case, r *harness.Result) []string {
 	var out []string
 	has := func(k string) bool { return r.Fired[k] > 0 }
+	if c.SecondPrepare != "" {
+		out = append(out, "second_preparation_"+c.SecondPrepare)
+		// did the second preparation overlap a run?
+		var b2, e2 int64
+		for _, e := range r.Events {
+			if e.Kind == world.EvClient {
+				switch e.Data["what"] {
+				case "prepare2-begin":
+					b2 = e.Seq
+				case "prepare2-end":
+					e2 = e.Seq
+				}
+			}
+		}
+		for _, cl := range r.Clients {
+			if b2 > 0 && e2 > 0 && cl.StartSeq < e2 && (cl.EndSeq == 0 || cl.EndSeq > b2) {
+				out = append(out, "second_preparation_overlapped_a_run")
+				break
+			}
+		}
+	}
+	if c.Prov != nil && c.Prov.Kind == "foreach" {
+		out = append(out, "foreach_provider_case")
+		if c.Prov.Patient {
+			out = append(out, "foreach_provider_patient_case")
+		}
+	}
 	if has("caller_cancel") {
 		out = append(out, "caller_cancelled")
 		executing := false
